@@ -13,7 +13,18 @@ class Num:
         return struct.unpack(">Q", struct.pack(">d", float(self.lit)))[0]
 
 
+def _norm(v):
+    if isinstance(v, bool) or v is None:
+        return v
+    if isinstance(v, int):
+        return Num(str(v))
+    if isinstance(v, float):
+        return Num(repr(v))
+    return v
+
+
 def to_text(v):
+    v = _norm(v)
     if v is None:
         return "null"
     if v is True:
@@ -37,6 +48,7 @@ def go_string(s):
 
 
 def to_tokens(v):
+    v = _norm(v)
     if v is None:
         return [0]
     if v is True:
